@@ -10,6 +10,9 @@ K_UNAME, K_UPW, K_UEN, K_UACC = 15, 16, 17, 18
 K_EVRCV, K_EVENT, K_SENS, K_THR, K_THRMASK = 20, 21, 22, 23, 24
 K_PICMG, K_FRUCTL, K_LED, K_FAN, K_POLICY, K_ACT, K_PWRLVL, K_FANPROP, K_RESET = 30, 31, 32, 33, 34, 35, 36, 37, 40
 K_HPMCAP, K_HPMSTAT, K_SELFTEST = 41, 42, 43
+K_PORT, K_SIGCLASS, K_PWRCHST, K_PWRCHCTL, K_PMGLOBAL, K_HEARTBEAT, K_AUTHCAP, K_ROLLBACK, K_ROLLBACKREQ = \
+    50, 51, 52, 53, 54, 55, 56, 57, 58
+K_DCMICAP, K_DCMIPWR, K_I2CMEM, K_I2CW = 60, 61, 62, 63
 
 
 def default(k):
@@ -66,6 +69,26 @@ def default(k):
         return [0, 0]
     if kind == K_SELFTEST:
         return [0x55, 0]
+    if kind == K_SIGCLASS:
+        return [0]
+    if kind == K_PWRCHST:
+        return [1]
+    if kind == K_PWRCHCTL:
+        return [0, 0, 0]
+    if kind == K_PMGLOBAL:
+        return [16, 6]
+    if kind == K_HEARTBEAT:
+        return [0, 0]
+    if kind == K_AUTHCAP:
+        return [0x97, 0, 3, 0, 0, 0, 0]
+    if kind == K_ROLLBACK:
+        return [0]
+    if kind == K_DCMICAP:
+        return [0, 1, 7]
+    if kind == K_DCMIPWR:
+        return [100, 0, 50, 0, 200, 0, 120, 0, 1, 2, 3, 4, 232, 3, 0, 0, 0x40]
+    if kind == K_I2CMEM:
+        return [0xa0, 0xa1, 0xa2, 0xa3, 0xa4, 0xa5, 0xa6, 0xa7]
     return []
 
 
@@ -75,6 +98,10 @@ def at(d, i):
 
 def bit(x, i):
     return (x >> i) & 1
+
+
+def setbit(x, i, v):
+    return x - bit(x, i) * 2 ** i + v * 2 ** i
 
 
 def merge_bits(n, old, m, v):
@@ -100,7 +127,7 @@ class RefBmc:
     def handle(self, netfn, cmd, lun, data, req=None):
         d = list(data)
         fn = {0x06: self.h_app, 0x00: self.h_chassis, 0x04: self.h_sensor, 0x0c: self.h_transport,
-              0x2c: self.h_picmg}.get(netfn)
+              0x2c: self.h_dcmi if at(d, 0) == 0xdc else self.h_picmg}.get(netfn)
         r = [0xc1] if fn is None else fn(cmd, lun, d)
         return bytes(r)
 
@@ -188,6 +215,18 @@ class RefBmc:
                 st = 1 if at(self.s[(K_UEN, uid, 0)], 0) == 1 else 2
             n = sum(1 for u in range(1, 11) if at(get(K_UEN, u, 0), 0) == 1)
             return ok([10, n + 64 * st, 1, at(a, 0) + at(a, 1)])
+        if cmd == 0x38:
+            if len(d) < 2:
+                return [0xc7]
+            ch = d[0] % 16
+            return ok([ch] + get(K_AUTHCAP, ch, 0))
+        if cmd == 0x52:
+            if len(d) < 3:
+                return [0xc7]
+            mem = get(K_I2CMEM, d[0], d[1])
+            if d[3:]:
+                put((K_I2CW, d[0], d[1]), d[3:])
+            return ok(mem[:d[2]])
         return [0xc1]
 
     def h_chassis(self, cmd, lun, d):
@@ -356,4 +395,60 @@ class RefBmc:
             return ok([0] + get(K_HPMSTAT, 0, 0))
         if cmd == 0x36:
             return ok([0] + get(K_SELFTEST, 0, 0))
+        if cmd == 0x37:
+            return ok([0] + get(K_ROLLBACK, 0, 0))
+        if cmd == 0x38:
+            put((K_ROLLBACKREQ, 0, 0), [1])
+            return ok([0])
+        if cmd == 0x0e:
+            if len(d) != 6:
+                return [0xc7]
+            put((K_PORT, d[1] // 64, d[1] % 64), d[1:6])
+            return ok([0])
+        if cmd == 0x0f:
+            if len(d) < 2:
+                return [0xc7]
+            return ok([0] + get(K_PORT, d[1] // 64, d[1] % 64))
+        if cmd == 0x3b:
+            if len(d) < 3:
+                return [0xc7]
+            put((K_SIGCLASS, d[1] // 64, d[1] % 64), [d[2] % 16])
+            return ok([0])
+        if cmd == 0x3c:
+            if len(d) < 2:
+                return [0xc7]
+            return ok([0, d[1], at(get(K_SIGCLASS, d[1] // 64, d[1] % 64), 0)])
+        if cmd == 0x24:
+            if len(d) != 6:
+                return [0xc7]
+            st, c = at(get(K_PWRCHST, d[1], 0), 0), d[2]
+            if c > 5:
+                return [0xcc]
+            st2 = setbit(st, {0: 1, 1: 1, 2: 3, 3: 3, 4: 4, 5: 4}[c], c % 2)
+            put((K_PWRCHST, d[1], 0), [st2])
+            put((K_PWRCHCTL, d[1], 0), [d[3], d[4], d[5]])
+            return ok([0])
+        if cmd == 0x25:
+            if len(d) < 3:
+                return [0xc7]
+            if d[2] > 16:
+                return [0xc9]
+            return ok([0] + get(K_PMGLOBAL, 0, 0) + [at(get(K_PWRCHST, d[1] + i, 0), 0) for i in range(d[2])])
+        if cmd == 0x28:
+            if len(d) < 3:
+                return [0xc7]
+            put((K_HEARTBEAT, 0, 0), [d[1], d[2]])
+            return ok([0])
+        return [0xc1]
+
+    def h_dcmi(self, cmd, lun, d):
+        ok, get = self.ok, self.get
+        if cmd == 0x01:
+            if len(d) < 2:
+                return [0xc7]
+            return ok([0xdc, 1, 5, 2] + get(K_DCMICAP, d[1], 0))
+        if cmd == 0x02:
+            if len(d) < 4:
+                return [0xc7]
+            return ok([0xdc] + get(K_DCMIPWR, 0, 0))
         return [0xc1]
